@@ -445,3 +445,58 @@ func nilReaderSinks(c *cx, id string) {
 	}
 	c.r.Floor(id, "token readers handed to NewTokenDecoder/Copy", n, 20)
 }
+
+// zeroValueMapStores (E-nil, maps): a store into a map-typed field of the
+// receiver, in an exported method of an exported type, works on the zero
+// value too: every path to the store passes a make-assignment of that field
+// or is dominated by a non-nil test of it. Scope: exported payload types, i.e.
+// types with an UnmarshalXML method, whose zero value is the decode target.
+func zeroValueMapStores(c *cx, id string, in func(f *eng.Fn) bool) int {
+	n := 0
+	for _, f := range c.allFns() {
+		if f.Body == nil || f.Obj == nil || !in(f) || f.Sig() == nil || f.Sig().Recv() == nil || !f.Obj.Exported() {
+			continue
+		}
+		tn := recvTypeName(f)
+		if tn == nil || !tn.Exported() {
+			continue
+		}
+		// payload types: the zero value is what a decoder starts from (var v T;
+		// xml.Unmarshal(data, &v)), so it is a value of the exported API. Service
+		// types with a constructor and no decoder (handlers) are not covered.
+		if types.NewMethodSet(types.NewPointer(tn.Type())).Lookup(nil, "UnmarshalXML") == nil {
+			continue
+		}
+		g := f.Graph()
+		for _, mu := range f.MapUpdates() {
+			if mu.Delete {
+				continue // delete on a nil map is a no-op
+			}
+			x := f.Norm(mu.Map, nil)
+			if !strings.HasPrefix(x, "recv.") || strings.Count(x, ".") != 1 {
+				continue
+			}
+			n++
+			pt, _ := g.Where(mu.Node)
+			isMake := func(q eng.Point, nd ast.Node) bool {
+				as, ok := nd.(*ast.AssignStmt)
+				if !ok || len(as.Lhs) != 1 || len(as.Rhs) != 1 || f.Norm(as.Lhs[0], nil) != x {
+					return false
+				}
+				switch r := ast.Unparen(as.Rhs[0]).(type) {
+				case *ast.CallExpr:
+					return f.CalleeID(r) == "builtin.make"
+				case *ast.CompositeLit:
+					return true
+				}
+				return false
+			}
+			okd, _ := g.Dominated(pt, "!eq("+x+",nil)")
+			// the usual idiom: if m == nil { m = make(...) } ; m[k] = v
+			cut := g.CutFor("eq(" + x + ",nil)")
+			okm := g.MustPassBefore(g.Entry(), pt, isMake, cut)
+			c.r.Check(id, f, "store into map field "+x, "E-nil: a store into a map field of the receiver is preceded, when the field is nil, by its allocation (the zero value of an exported type is usable)", mu.Node.Pos(), okd || okm, "on the zero value the field is nil: the store panics (assignment to entry in nil map)")
+		}
+	}
+	return n
+}
